@@ -230,26 +230,53 @@ fn lcd_prepare(lcd: &mut LcdController) {
     }
 }
 
+/// Status reads (busy/on) — the part of the state observed through the protocol in the symbolic run;
+/// on/start line/page/column/VRAM are read by the interpreter straight from the controller's memory.
 fn lcd_dump(lcd: &mut LcdController) {
-    // observable state through the protocol: status (busy/on) then current column via data reads is
-    // destructive, so report what the public snapshot-free API offers: display bytes + status reads.
-    let vram = lcd.display_vram_bytes();
-    for (p, row) in vram.iter().enumerate() {
-        for (c, b) in row.iter().enumerate() {
-            vout(10_000 + (p as u32) * 240 + c as u32, *b as u32);
-        }
-    }
     for chip in 0..2u32 {
         let cs = if chip == 0 { 2 } else { 1 };
         vout(20 + chip, lcd.read(lcd_addr(cs, 0, 1)).map(|v| v as u32).unwrap_or(0x100));
     }
+    let st = lcd.stats();
+    vout(40, st.chip_on[0] as u32);
+    vout(41, st.chip_on[1] as u32);
+}
+
+/// Native replay only: the full state through the public snapshot API.
+fn lcd_dump_snapshot(lcd: &LcdController) {
+    let (meta, payload) = lcd.export_snapshot();
+    if let Some(chips) = meta.get("chips").and_then(|v| v.as_array()) {
+        for (i, c) in chips.iter().enumerate() {
+            let base = 60 + 10 * i as u32;
+            vout(base, c.get("on").and_then(|v| v.as_bool()).unwrap_or(false) as u32);
+            vout(base + 1, c.get("start_line").and_then(|v| v.as_u64()).unwrap_or(999) as u32);
+            vout(base + 2, c.get("page").and_then(|v| v.as_u64()).unwrap_or(999) as u32);
+            vout(base + 3, c.get("y_address").and_then(|v| v.as_u64()).unwrap_or(999) as u32);
+        }
+    }
+    for (k, b) in payload.iter().enumerate() {
+        vout(10_000 + k as u32, *b as u32);
+    }
+}
+
+/// The symbolic run splits preparation (fork-free, executed once per state class) from the operation
+/// (explored path by path from a snapshot of the prepared machine); the native replay runs both in one call.
+static mut LCD_PTR: *mut LcdController = std::ptr::null_mut();
+
+#[no_mangle]
+pub extern "C" fn harness_lcd_prepare() -> i32 {
+    let mut b = Box::new(LcdController::new());
+    lcd_prepare(&mut b);
+    unsafe {
+        LCD_PTR = Box::into_raw(b);
+    }
+    0
 }
 
 /// op: input 200 = 0 write / 1 read; 201 address; 202 value.  outputs: 0 = read result (0x100 = None)
 #[no_mangle]
-pub extern "C" fn harness_lcd_op() -> i32 {
-    let mut lcd = LcdController::new();
-    lcd_prepare(&mut lcd);
+pub extern "C" fn harness_lcd_op2() -> i32 {
+    let lcd: &mut LcdController = unsafe { &mut *LCD_PTR };
     let addr = vin(201);
     if vin(200) == 0 {
         lcd.write(addr, (vin(202) & 0xFF) as u8);
@@ -257,17 +284,36 @@ pub extern "C" fn harness_lcd_op() -> i32 {
     } else {
         vout(0, lcd.read(addr).map(|v| v as u32).unwrap_or(0x100));
     }
-    // follow-up probes that expose page/column/start-line state without private access:
-    // a data read on each chip returns vram[page][col-1] and advances the column.
-    for chip in 0..2u32 {
-        let cs = if chip == 0 { 2 } else { 1 };
-        vout(30 + chip, lcd.read(lcd_addr(cs, 1, 1)).map(|v| v as u32).unwrap_or(0x100));
-        vout(32 + chip, lcd.read(lcd_addr(cs, 1, 1)).map(|v| v as u32).unwrap_or(0x100));
+    lcd_dump(lcd);
+    0
+}
+
+#[no_mangle]
+pub extern "C" fn harness_lcd_op() -> i32 {
+    harness_lcd_prepare();
+    // snapshot first: the status reads of op2's dump clear busy but nothing else
+    let lcd: &mut LcdController = unsafe { &mut *LCD_PTR };
+    let addr = vin(201);
+    if vin(200) == 0 {
+        lcd.write(addr, (vin(202) & 0xFF) as u8);
+        vout(0, 0x200);
+    } else {
+        vout(0, lcd.read(addr).map(|v| v as u32).unwrap_or(0x100));
     }
-    lcd_dump(&mut lcd);
-    let st = lcd.stats();
-    vout(40, st.chip_on[0] as u32);
-    vout(41, st.chip_on[1] as u32);
+    lcd_dump_snapshot(lcd);
+    lcd_dump(lcd);
+    0
+}
+
+#[no_mangle]
+pub extern "C" fn harness_lcd_pixels2() -> i32 {
+    let lcd: &mut LcdController = unsafe { &mut *LCD_PTR };
+    let buf = lcd.display_buffer();
+    for (r, row) in buf.iter().enumerate() {
+        for (c, p) in row.iter().enumerate() {
+            vout(50_000 + (r as u32) * 240 + c as u32, *p as u32);
+        }
+    }
     0
 }
 
